@@ -28,6 +28,9 @@ else:
     for m in metas:
         det = m.get("detected_by") or []
         verdict = "**caught**: " + ", ".join(f"`{d}`" for d in det[:4]) if m.get("detected") else "**missed** — " + m.get("missed_reason", "")
+        others = [p for p in m.get("properties_reporting", []) if p != m.get("property")]
+        if others:
+            verdict += " (also reported under " + ", ".join(others) + ")"
         if m.get("detected") and m.get("note"):
             verdict += " — " + m["note"]
         print(f"| {m['_dir']} | {m.get('property','')} | {m.get('summary','')} | {m.get('needs','')} | {verdict} |")
